@@ -751,10 +751,20 @@ func (sc *scen) runStep(si int, st *step) {
 	headNow := sim.head
 	rcptOf := func(tx int) *simRcpt { return sim.rcpts[tx] }
 	sim.mu.Unlock()
+	// a receipt request that arrives while a scan is running belongs to that scan only if an entry with that transaction can be
+	// pending: a re-observation request may overlap a scan over an EMPTY w.pending (the head of a poll that was in flight when the
+	// poller was switched off), and then the request is the re-observation's own
+	pendTx := map[int]bool{}
+	for k := range pendBefore {
+		pendTx[int(k[0])] = true
+	}
+	if st.Op == "log" {
+		pendTx[st.Tx] = true
+	}
 	scanLk := func(s scanRec) []lookupRec {
 		var out []lookupRec
 		for _, lk := range allLk[s.From:s.To] {
-			if lk.Kind == kindTx {
+			if lk.Kind == kindTx && pendTx[lk.Tx] {
 				out = append(out, lk)
 			}
 		}
@@ -835,7 +845,7 @@ func (sc *scen) runStep(si int, st *step) {
 				inScan = true
 			}
 		}
-		if inScan {
+		if inScan && pendTx[allLk[gi].Tx] {
 			scanLookups = append(scanLookups, allLk[gi])
 		} else {
 			otherLookups = append(otherLookups, allLk[gi])
